@@ -9,13 +9,18 @@ open Mpir
 
 /-! ### read / write / writeList -/
 
+theorem Memory.ext' {m m' : Memory} (h : ∀ a, m a = m' a) : m = m' := by
+  cases m; cases m'; congr; funext a; exact h a
+
 @[simp] theorem write_same (m : Memory) (p v : Nat) : write m p v p = v := by simp [write]
 
 theorem write_other (m : Memory) {p a : Nat} (v : Nat) (h : a ≠ p) : write m p v a = m a := by
   simp [write, h]
 
 theorem write_self (m : Memory) (p : Nat) : write m p (m p) = m := by
-  funext a; unfold write; split
+  apply Memory.ext'; intro a
+  show (if a = p then m p else m a) = m a
+  split
   · next h => rw [h]
   · rfl
 
@@ -57,7 +62,9 @@ theorem read_writeList : ∀ (l : List Nat) (m : Memory) (p : Nat), read (writeL
 
 theorem write_comm (m : Memory) {a b : Nat} (v w : Nat) (h : a ≠ b) :
     write (write m a v) b w = write (write m b w) a v := by
-  funext c; unfold write; by_cases h1 : c = b <;> by_cases h2 : c = a <;> simp_all
+  apply Memory.ext'; intro c
+  show (if c = b then w else if c = a then v else m c) = (if c = a then v else if c = b then w else m c)
+  by_cases h1 : c = b <;> by_cases h2 : c = a <;> simp_all
 
 theorem writeList_write_comm : ∀ (l : List Nat) (m : Memory) (p a v : Nat), a < p ∨ p + l.length ≤ a →
     writeList (write m a v) p l = write (writeList m p l) a v
